@@ -55,6 +55,37 @@ Theorem C10_power_loss_refuted_vlog_name :
 Proof. exact PowerLossProofs.C10_refuted_vlog_name. Qed.
 Print Assumptions C10_power_loss_refuted_vlog_name.
 
+(* The sync events are what makes content durable in the model, and the harness takes them from
+   the system calls the process really made (strace; harness/strace.go): a sync the code skips
+   is an event the trace lacks.  These are the guards that then reject the trace: an
+   acknowledgement needs the current WAL msynced; a flushed WAL is truncated / unlinked only
+   when its table is in the MANIFEST as of the last MANIFEST fsync; a change set is appended
+   only to a fsynced MANIFEST. *)
+Theorem C10_sync_events_required : forall c st,
+  (forall st', sync_writes c = true -> pstep c st PAck = Some st' ->
+     log_synced (pfs st) (Wal (walcur st)) = true) /\
+  (forall f st', pstep c st (PE (Truncate0 (Wal f))) = Some st' \/ pstep c st (PE (Unlink (Wal f))) = Some st' ->
+     f <= nflushed_s st) /\
+  (forall cs st', pstep c st (PE (Append Manifest (IM cs))) = Some st' -> synced (pfs st) Manifest = true).
+Proof. exact PowerLossProofs.C10_sync_events_required. Qed.
+Print Assumptions C10_sync_events_required.
+
+(* a flush whose change set is not fsynced before the flushed WAL is released (the hook
+   persist.manifest.done fires all the same): REJECTED by the guard; accepted with the fsync,
+   and then the acknowledged commit survives; the same file-system events without the guard:
+   Open succeeds and the acknowledged commit is gone *)
+Example C10_missing_manifest_sync_rejected :
+  run (cfg_fixed true) (init (cfg_fixed true)) (tr_flush_release false) = None /\
+  match run (cfg_fixed true) (init (cfg_fixed true)) (tr_flush_release true) with
+  | Some st => match power_loss_result (cfg_fixed true) st with
+               | Some R => prefix_okb st R && Nat.eqb (acked st) 1 && Nat.eqb (length R) 1
+               | None => false end
+  | None => false
+  end = true /\
+  recover (cfg_fixed true)
+    (power_loss (apply_events (init_fs (cfg_fixed true)) (fs_events (tr_flush_release false)))) = Some [].
+Proof. exact PowerLossProofs.C10_missing_manifest_sync. Qed.
+
 (* hypotheses are satisfiable: the example trace (vlog value, rotations, flushes, WAL removal,
    compaction, with the repaired directory fsyncs) is accepted with both repairs and its
    power-loss image recovers both acknowledged commits; the same witnesses that refute the
